@@ -65,4 +65,17 @@ def build(tier, repo):
                    "valid expressions with sparse coefficients (x + x[0], x + sum(x), x + S*x) are not refused")
     chk.note_analysed("sparse_inplace_sites", mr.sparse_inplace_rule(r12, w, repo))
     r12.require(2)
+    r13 = chk.rule("C11-R13", "a length test constrains every type alternative of an `or` (and/or precedence)",
+                   "combinations whose dimensions do not match are refused")
+    chk.note_analysed("type_alternatives", mr.asymmetric_alternative_rule(r13, w))
+    r13.require(2)
+    r14 = chk.rule("C11-R14", "an argument admitted as dense-or-sparse is not measured with len() (nnz of a sparse matrix)",
+                   "len(f) follows the broadcasting rule for sparse constants too")
+    chk.note_analysed("dense_or_sparse_arguments", mr.sparse_len_rule(r14, w))
+    r14.require(4)
+    r15 = chk.rule("C11-R15", "value(): None results of _vecmax/_vecmin are propagated, and the returned object is new",
+                   "f.value() equals the formula (None when a variable has no value) and does not alias f")
+    chk.note_analysed("none_results", mr.none_result_rule(r15, w))
+    chk.note_analysed("value_returns", mr.value_copy_rule(r15, w))
+    r15.require(4)
     return chk
